@@ -1,7 +1,176 @@
 import GluonModel.Sexp
-open GluonModel
+import GluonModel.Marshal
+open GluonModel GluonModel.Marshal
+
+def parseIntTy : String → Option IntTy
+  | "i16" => some .i16 | "i32" => some .i32 | "i64" => some .i64 | "isize" => some .isize
+  | "u16" => some .u16 | "u32" => some .u32 | "u64" => some .u64 | "usize" => some .usize
+  | _ => none
+
+def intTyName : IntTy → String
+  | .i16 => "i16" | .i32 => "i32" | .i64 => "i64" | .isize => "isize"
+  | .u16 => "u16" | .u32 => "u32" | .u64 => "u64" | .usize => "usize"
+
+mutual
+partial def parseT : Sexp → Option TCode
+  | .atom "unit" => some .unit
+  | .atom "u8" => some .u8
+  | .atom "f32" => some .f32
+  | .atom "f64" => some .f64
+  | .atom "bool" => some .bool
+  | .atom "char" => some .char
+  | .atom "string" => some .string
+  | .atom "ordering" => some .ordering
+  | .atom "ustruct" => some .ustruct
+  | .atom a => (parseIntTy a).map .int
+  | .list [.atom "option", t] => (parseT t).map .option
+  | .list [.atom "result", t, e] => do
+    let t ← parseT t
+    let e ← parseT e
+    pure (.result t e)
+  | .list [.atom "vec", t] => (parseT t).map .vec
+  | .list (.atom "tuple" :: ts) => (ts.mapM parseT).map .tuple
+  | .list [.atom "map", t] => (parseT t).map .map
+  | .list (.atom "struct" :: fs) => (fs.mapM parseField).map .struct
+  | .list [.atom "newtype", t] => (parseT t).map .newtype
+  | .list (.atom "tstruct" :: ts) => (ts.mapM parseT).map .tstruct
+  | .list (.atom "enum" :: .str n :: vs) => (vs.mapM parseVariant).map (.enum n)
+  | _ => none
+partial def parseField : Sexp → Option (String × TCode)
+  | .list [.str n, t] => (parseT t).map (fun t => (n, t))
+  | _ => none
+partial def parseVariant : Sexp → Option TCode
+  | .list [.atom "u"] => some .vunit
+  | .list (.atom "t" :: ts) => (ts.mapM parseT).map .vtuple
+  | .list (.atom "s" :: fs) => (fs.mapM parseField).map .vstruct
+  | _ => none
+end
+
+mutual
+partial def parseV : Sexp → Option Val
+  | .atom "unit" => some .unit
+  | .atom "none" => some .none
+  | .atom "ustruct" => some .ustruct
+  | .list [.atom "u8", n] => n.toNat?.map .u8
+  | .list [.atom "int", .atom t, n] => do
+    let t ← parseIntTy t
+    let n ← n.toInt?
+    pure (.int t n)
+  | .list [.atom "f32", n] => n.toNat?.map .f32
+  | .list [.atom "f64", n] => n.toNat?.map .f64
+  | .list [.atom "bool", n] => n.toNat?.map (fun n => .bool (n == 1))
+  | .list [.atom "char", n] => n.toNat?.map .char
+  | .list [.atom "str", .str s] => some (.str s)
+  | .list [.atom "ord", n] => n.toNat?.map .ord
+  | .list [.atom "some", v] => (parseV v).map .some
+  | .list [.atom "ok", v] => (parseV v).map .ok
+  | .list [.atom "err", v] => (parseV v).map .err
+  | .list (.atom "vec" :: vs) => (vs.mapM parseV).map .vec
+  | .list (.atom "tuple" :: vs) => (vs.mapM parseV).map .tuple
+  | .list (.atom "map" :: kvs) => (kvs.mapM parseKV).map .map
+  | .list (.atom "struct" :: fs) => (fs.mapM parseKV).map .struct
+  | .list [.atom "newtype", v] => (parseV v).map .newtype
+  | .list (.atom "tstruct" :: vs) => (vs.mapM parseV).map .tstruct
+  | .list [.atom "var", i, p] => do
+    let i ← i.toNat?
+    let p ← parseP p
+    pure (.var i p)
+  | _ => none
+partial def parseKV : Sexp → Option (String × Val)
+  | .list [.str n, v] => (parseV v).map (fun v => (n, v))
+  | _ => none
+partial def parseP : Sexp → Option Val
+  | .list [.atom "u"] => some .vunit
+  | .list (.atom "t" :: vs) => (vs.mapM parseV).map .vtuple
+  | .list (.atom "s" :: fs) => (fs.mapM parseKV).map .vstruct
+  | _ => none
+end
+
+def reprName : ARepr → String
+  | .byte => "Byte" | .int => "Int" | .float => "Float" | .string => "String"
+  | .array => "Array" | .unknown => "Unknown"
+
+/-- insertion sort of (name, rendering) pairs by name (the harness sorts the field names) -/
+def insertByName (p : String × String) : List (String × String) → List (String × String)
+  | [] => [p]
+  | q :: qs => if p.1 < q.1 then p :: q :: qs else q :: insertByName p qs
+
+def sortByName (l : List (String × String)) : List (String × String) :=
+  l.foldr insertByName []
+
+partial def renderG : GV → String
+  | .byte n => "(b " ++ toString n ++ ")"
+  | .int n => "(i " ++ toString n ++ ")"
+  | .float b => "(f " ++ toString b ++ ")"
+  | .str s => "(s " ++ Sexp.quote s ++ ")"
+  | .tag t => "(tag " ++ toString t ++ ")"
+  | .data t fs => "(data " ++ " ".intercalate (toString t :: fs.map renderG) ++ ")"
+  | .record names fs =>
+    -- a record without field names is indistinguishable from a plain data value for the walker
+    if names.isEmpty then "(data " ++ " ".intercalate ("0" :: fs.map renderG) ++ ")"
+    else
+      let rs := fs.map renderG
+      -- the field map: a later duplicate name would overwrite; names are distinct in the family
+      let named := sortByName (names.zip rs)
+      "(rec (" ++ " ".intercalate rs ++ ") (" ++
+        " ".intercalate (named.map (fun p => "(" ++ Sexp.quote p.1 ++ " " ++ p.2 ++ ")")) ++ "))"
+  | .array r xs => "(arr " ++ " ".intercalate (reprName r :: xs.map renderG) ++ ")"
+
+mutual
+partial def renderV : Val → String
+  | .unit => "unit"
+  | .u8 n => "(u8 " ++ toString n ++ ")"
+  | .int t n => "(int " ++ intTyName t ++ " " ++ toString n ++ ")"
+  | .f32 b => "(f32 " ++ toString b ++ ")"
+  | .f64 b => "(f64 " ++ toString b ++ ")"
+  | .bool b => "(bool " ++ (if b then "1" else "0") ++ ")"
+  | .char c => "(char " ++ toString c ++ ")"
+  | .str s => "(str " ++ Sexp.quote s ++ ")"
+  | .ord o => "(ord " ++ toString o ++ ")"
+  | .none => "none"
+  | .some v => "(some " ++ renderV v ++ ")"
+  | .ok v => "(ok " ++ renderV v ++ ")"
+  | .err v => "(err " ++ renderV v ++ ")"
+  | .vec vs => "(" ++ " ".intercalate ("vec" :: vs.map renderV) ++ ")"
+  | .tuple vs => "(" ++ " ".intercalate ("tuple" :: vs.map renderV) ++ ")"
+  | .map kvs => "(" ++ " ".intercalate ("map" :: kvs.map renderKV) ++ ")"
+  | .struct fs => "(" ++ " ".intercalate ("struct" :: fs.map renderKV) ++ ")"
+  | .newtype v => "(newtype " ++ renderV v ++ ")"
+  | .tstruct vs => "(" ++ " ".intercalate ("tstruct" :: vs.map renderV) ++ ")"
+  | .ustruct => "ustruct"
+  | .var i p => "(var " ++ toString i ++ " " ++ renderV p ++ ")"
+  | .vunit => "(u)"
+  | .vtuple vs => "(" ++ " ".intercalate ("t" :: vs.map renderV) ++ ")"
+  | .vstruct fs => "(" ++ " ".intercalate ("s" :: fs.map renderKV) ++ ")"
+partial def renderKV : String × Val → String
+  | (k, v) => "(" ++ Sexp.quote k ++ " " ++ renderV v ++ ")"
+end
+
+def renderOV : Option Val → String
+  | some v => renderV v
+  | none => "panic"
 
 def handle : List Sexp → String
-  | _ => "unimplemented"
+  | [.atom "rt", t, v] =>
+    match parseT t, parseV v with
+    | some t, some v =>
+      let g := push v
+      "(" ++ renderG g ++ " " ++ renderOV (get t g) ++ ")"
+    | _, _ => "bad-request"
+  | [.atom "ser", v] =>
+    match parseV v with
+    | some v => renderG (ser v)
+    | none => "bad-request"
+  | [.atom "conv", v, t] =>
+    match parseV v, parseT t with
+    | some v, some t => renderOV (get t (push v))
+    | _, _ => "bad-request"
+  | [.atom "gg", actual, requested] =>
+    match parseT actual, parseT requested with
+    | some a, some r => match getGlobal r a with
+      | .ok => "ok"
+      | .wrongType => "wrong-type"
+    | _, _ => "bad-request"
+  | _ => "bad-request"
 
 def main : IO Unit := driverLoop handle
